@@ -298,23 +298,33 @@ def scoping_stylesheet(rng):
             body = wrap(body)
         post = [{"i": "value-of", "sel": var(nm)} for nm in scope_names]      # the caller's own bindings must survive the call
         return pre + body + post
-    callee_params = [param(nm) for nm in ("pa", "pb")]
+    # which of the two parameters each callee DECLARES: a passed parameter the template does not declare is ignored (11.6), and
+    # $name in it is the top-level variable of that name - also for the later nodes of one xsl:apply-templates, after another
+    # template has bound the same passed parameter
+    declares = lambda: rng.choice([("pa", "pb"), ("pa", "pb"), ("pa",), ("pb",), ()])
+    d1, d2, d5 = declares(), declares(), declares()
+    callee_params = [param(nm) for nm in d1]
     templates = [
         {"rid": 1, "hasMatch": False, "match": NONE, "name": "callee", "mode": "", "hasPrio": False, "prio": {"k": "fin", "neg": False, "m": 0},
          "params": callee_params, "body": show()},
         {"rid": 2, "hasMatch": True, "match": P_(ch(T_NODE)), "name": "", "mode": "c", "hasPrio": False, "prio": {"k": "fin", "neg": False, "m": 0},
-         "params": [param(nm) for nm in ("pa", "pb")], "body": show()},
+         "params": [param(nm) for nm in d2], "body": show()},
         {"rid": 3, "hasMatch": True, "match": P_(ch(T_ANY)), "name": "", "mode": "", "hasPrio": False, "prio": {"k": "fin", "neg": False, "m": 0},
          "params": [], "body": []},
         {"rid": 4, "hasMatch": True, "match": P_(abs_=True), "name": "", "mode": "", "hasPrio": False, "prio": {"k": "fin", "neg": False, "m": 0},
          "params": [], "body": [{"i": "lre", "name": cps("out"), "attrs": [], "body": caller_body() + [{"i": "apply-templates", "hasSel": False, "sel": NONE, "mode": "", "sorts": [], "params": with_params()}]}]},
     ]
+    templates.append({"rid": 5, "hasMatch": True, "match": P_(ch(t_name("b"))), "name": "", "mode": "c", "hasPrio": False, "prio": {"k": "fin", "neg": False, "m": 0},
+                      "params": [param(nm) for nm in d5], "body": [{"i": "text", "v": cps("b")}] + show()})
     if rng.random() < 0.5:
         templates[2]["params"] = [param("pa")]
         templates[2]["body"] = [{"i": "lre", "name": cps("e"), "attrs": [], "body": caller_body(declared=("pa",))}]
     else:
         templates[2]["body"] = [{"i": "lre", "name": cps("e"), "attrs": [], "body": caller_body()}]
-    gvars = [{"name": "pb", "hasSel": True, "sel": lit("global"), "body": []}] if rng.random() < 0.3 else []
+    gvars = []
+    for nm in ("pa", "pb"):
+        if not all(nm in d for d in (d1, d2, d5)) or (nm == "pb" and rng.random() < 0.3):
+            gvars.append({"name": nm, "hasSel": True, "sel": lit("global-" + nm), "body": []})
     # 11.4: a top-level variable sees the root node as current node in a current node list of just the root node
     gq = rng.choice([fn("position"), fn("last"), bin_("+", fn("position"), fn("last")), fn("count", P_(ch(T_NODE))), fn("name", P_(ch(T_ANY))), lit("g")])
     if rng.random() < 0.3:
